@@ -86,4 +86,30 @@ def resolveComment (bugs : List BugC) (pre : List Char) : Res (List Char × List
   | [x] => .found x
   | xs => .multiple xs
 
+/-- what `commands/select.Resolve` answers: the entity and the arguments left for the command, the
+multiple-match error of the prefix resolution, or "no valid id" (`cleared`: the selection named an
+entity that does not exist and has been removed) -/
+inductive Sel where
+  | entity (id : List Char) (rest : List (List Char))
+  | multiple (ids : List (List Char))
+  | noValidId (cleared : Bool)
+deriving Repr, DecidableEq
+
+/-- the selected entity, when the first argument does not name one -/
+def selectFallback (ids : List (List Char)) (selected : Option (List Char)) (args : List (List Char)) : Sel :=
+  match selected with
+  | none => .noValidId false
+  | some s => if s ∈ ids then .entity s args else .noValidId true
+
+/-- `commands/select.Resolve`: the first argument as an id prefix; only when it matches nothing,
+the selected entity (and then the argument stays an argument). -/
+def selectResolve (ids : List (List Char)) (selected : Option (List Char)) (args : List (List Char)) : Sel :=
+  match args with
+  | [] => selectFallback ids selected args
+  | a :: rest =>
+    match resolve ids a with
+    | .found x => .entity x rest
+    | .multiple xs => .multiple xs
+    | .notFound => selectFallback ids selected args
+
 end GitBugModel.Ids
